@@ -40,7 +40,7 @@ Opts(z, store) ==
    ev |-> IF Flip(z, 25) THEN Some(IF Flip(z, 50) /\ store # <<>> THEN R({store[k].body : k \in 1..Len(store)}) ELSE Body(z)) ELSE NoMsg,
    chk |-> R({0, 0, 0, 1}), xa |-> Flip(z, 15), cia |-> Flip(z, 50), am |-> Flip(z, 40),
    gen |-> Flip(z, 60), first |-> R({"g", "g", "a", "b", "A"}),
-   ib |-> R({0, 0, 1}), ia |-> R({0, 0, 1}), wt |-> R({-1, -1, -1, 7, 9, 11, 12})]   \* (11 = Go's zero time, 12 = the Unix epoch: write times like any other)
+   ib |-> R({0, 0, 1}), ia |-> R({0, 0, 1, 2}), wt |-> R({-1, -1, -1, 7, 9, 11, 12})]   \* (11 = Go's zero time, 12 = the Unix epoch: write times like any other)
 PlainOpts == [M |-> NilMask, R |-> NilMask, mm |-> NilMask, W |-> NilMask, mw |-> NilMask, aw |-> FALSE, ev |-> NoMsg, chk |-> 0, xa |-> FALSE, cia |-> FALSE, am |-> FALSE,
               gen |-> FALSE, first |-> "g", ib |-> 0, ia |-> 0, wt |-> -1]
 
